@@ -3,6 +3,8 @@ package atomic
 import (
 	"sync/atomic"
 	"unsafe"
+
+	"github.com/csgura/fp/internal/verifhook"
 )
 
 type Reference interface {
@@ -20,12 +22,14 @@ type Value struct {
 
 // Get returns AtomicValuePtr
 func (r *Value) Get() *ValuePtr {
+	verifhook.Yield("get")
 	data := atomic.LoadPointer(&r.value)
 	return (*ValuePtr)(data)
 }
 
 // Load returns stored value
 func (r *Value) Load() any {
+	verifhook.Yield("load")
 	data := atomic.LoadPointer(&r.value)
 	ret := (*ValuePtr)(data)
 	return ret.Value()
@@ -33,12 +37,14 @@ func (r *Value) Load() any {
 
 // Store stores value
 func (r *Value) Store(v any) {
+	verifhook.Yield("store")
 	tostore := &ValuePtr{v}
 	atomic.StorePointer(&r.value, unsafe.Pointer(tostore))
 }
 
 // CompareAndSwap comapre current value with original and if it is same , set newvalue
 func (r *Value) CompareAndSwap(original *ValuePtr, newval any) bool {
+	verifhook.Yield("cas")
 	tostore := &ValuePtr{newval}
 	return atomic.CompareAndSwapPointer(&r.value, unsafe.Pointer(original), unsafe.Pointer(tostore))
 }
